@@ -49,9 +49,17 @@ def key_of(p):
 
 
 def run_reader_check(pid, tier, mcs, mult, known_match=None, rbufs=RBUFS, chunks=CHUNKS, tail=3,
-                     floors=None, assumptions=(), level="model_checking", max_progs=None):
-    """mcs: list of (module, cfg). Returns exit code."""
+                     floors=None, assumptions=(), level="model_checking", max_progs=None, extra=None):
+    """mcs: list of (module, cfg). extra: optional callable() -> (violations, coverage) merged into the result. Returns exit code."""
     violations, cov, wall = reader_run(pid, tier, mcs, mult, known_match, rbufs, chunks, tail, max_progs)
+    if extra:
+        t1 = time.time()
+        v2, cov2 = extra()
+        violations += v2
+        for k in ("states", "transitions", "traces_validated_against_impl", "trace_events"):
+            cov[k] = cov.get(k, 0) + cov2.get(k, 0)
+        cov.setdefault("extra_parts", []).append({k: v for k, v in cov2.items() if k != "samples"})
+        wall += time.time() - t1
     core.write_evidence(pid, tier, level, cov, wall, len(violations), list(assumptions))
     for v in violations:
         print("VIOLATION property=%s replay=%s" % (pid, v), flush=True)
@@ -154,3 +162,51 @@ def reader_run(pid, tier, mcs, mult, known_match=None, rbufs=RBUFS, chunks=CHUNK
                samples=samples, exhaustive=(max_progs is None), mc_configs=["%s/%s" % m for m in mcs],
                known_findings=len(seen))
     return violations, cov, time.time() - t0
+
+
+def run_rshare(pid, tier, mcs, groups, nconn=6, race=True):
+    """Several connections reading concurrently in one process (one goroutine each): they share only the library's
+    process-wide state (inflater / deflater pools). Every connection's own trace is validated against the reader model;
+    optionally under the race detector. Returns (violations, coverage)."""
+    seed = core.seed()
+    core.build_driver()
+    if race:
+        core.build_driver(race=True)
+    progs = []
+    states = trans = 0
+    for (mod, cfg) in mcs:
+        r = core.run_mc(mod, cfg, "%s-mc-%s" % (pid, cfg.replace(".cfg", "")))
+        progs += r["progs"]
+        states += r["states"]; trans += r["transitions"]
+    # compressed conformant streams read to the end of each message (the inflater goes back to the pool and is taken again)
+    progs = [p for p in progs if p.get("pmce") and any(f.get("comp") for f in p.get("frames", []))
+             and not any(o["op"] in ("WCL",) for o in p["reads"])]
+    if not progs:
+        raise core.Infra("no compressed programs for the shared-reader runs")
+    rnd = random.Random(seed * 31 + 5)
+    conc = concretise(progs, pid + ".rs", tier, seed, 1, rbufs=[1, 125, 256, 4096], chunks=["byte", "half", "frame", "rand"], tail=2)
+    grp = []
+    for g in range(groups):
+        members = []
+        for k in range(nconn):
+            q = dict(rnd.choice(conc))
+            q["id"] = "%s-%s-g%d/c%d" % (pid, tier[0], g, k)
+            q["seed"] = rnd.randrange(1, 1 << 30)
+            members.append(q)
+        grp.append(dict(id="%s-%s-g%d" % (pid, tier[0], g), progs=members))
+    name = "%s-%s-rshare" % (pid, tier)
+    core.rundir(name)
+    files = core.drive("rshare", grp, name, race=race)
+    res = core.validate("WSReaderTrace.tla", "WSReaderTrace.cfg", files, name)
+    log("[%s] concurrent readers: %d groups of %d connections, %d traces / %d events%s" % (
+        pid, len(grp), nconn, res["traces"], res["events"], " (race detector on)" if race else ""))
+    byid = {g["id"]: g for g in grp}
+    violations = []
+    for rj in res["rejections"][:4]:
+        base = rj["tid"].split("/")[0]
+        prog = byid.get(base, dict(id=base))
+        violations.append(core.save_replay(pid, "rshare", prog, rj["trace"], "event %d not explained by WSReader (connections reading concurrently in one process): %s" % (
+            rj["index"], json.dumps(rj["event"])[:500])))
+    cov = dict(states=states, transitions=trans, traces_validated_against_impl=res["traces"], trace_events=res["events"], groups=len(grp),
+               samples=[dict(program=grp[0])] if grp else [])
+    return violations, cov
